@@ -500,3 +500,8 @@ def check(src, rep, tier):
     rep.guard('C10.R1', r_nodup, src)
     rep.guard('C10.R4', r4_file_insert_append, src)
     rep.guard('C10.R2', r_sort, src)
+
+    def helper(r):
+        from . import C05
+        C05.r1b_helper(C05.Proxy(r, 'C10.R3'), src)
+    rep.guard('C10.R3', helper)
